@@ -107,6 +107,7 @@ type Stats struct {
 	Unspecified int
 	Tuples      map[string]int // (command, option shape, key type before, reply kind)
 	MaxDepth    int
+	DeadSteps   int // keys put past their deadline between two commands
 }
 
 var optWords = map[string]bool{"NX": true, "XX": true, "GET": true, "EX": true, "PX": true, "EXAT": true, "KEEPTTL": true,
@@ -277,6 +278,7 @@ func Run(prog []gen.Cmd, o Opts) ([]Div, Stats) {
 		divs = append(divs, d)
 	}
 	prevBad := map[string]bool{}
+	forced := map[string]bool{} // keys that were put past their deadline at some point of this program
 	for i, cmd := range prog {
 		if len(cmd) == 0 {
 			continue
@@ -287,6 +289,19 @@ func Run(prog []gen.Cmd, o Opts) ([]Div, Stats) {
 		}
 		if o.Journal != nil {
 			fmt.Fprintf(o.Journal, "P %d S %d %s\n", o.Prog, i, strings.Join(QuoteFull(cmd), " "))
+		}
+		if string(cmd[0]) == gen.DeadStep && len(cmd) == 2 {
+			// the key's deadline has passed and nothing has reaped it yet: for every command that follows the key
+			// does not exist. Over TCP, where the state cannot be forced, the key is deleted instead.
+			if ip, ok := in.(inprocExec); ok {
+				ip.in.ForceDead(string(cmd[1]))
+			} else {
+				in.Exec([][]byte{[]byte("DEL"), cmd[1]})
+			}
+			delete(db.Keys, string(cmd[1]))
+			forced[string(cmd[1])] = true
+			st.DeadSteps++
+			continue
 		}
 		kt := keyType(db, cmd)
 		tm := now()
@@ -368,6 +383,17 @@ func Run(prog []gen.Cmd, o Opts) ([]Div, Stats) {
 		impl := in.Dump()
 		if impl == nil && o.Exec != nil {
 			continue // the dump is unavailable on this vehicle for this state: replies remain the oracle
+		}
+		if len(forced) > 0 {
+			// a key that is stored with a deadline in the past is dead, whether it has been reaped or not
+			live := impl[:0]
+			for _, e := range impl {
+				if forced[e.Key] && e.HasDead && e.Dmax < tm.T0 {
+					continue
+				}
+				live = append(live, e)
+			}
+			impl = live
 		}
 		if out.Unspecified {
 			db.Load(impl)
